@@ -59,7 +59,10 @@ class Case:
             if tn == 'PointList':
                 src = 'literal'
             self.attrs.append({'name': f'a{i}', 'type': tn, 'source': src,
-                               'explicit_index': rng.randrange(len(samples)) if samples else 0})
+                               'explicit_index': rng.randrange(len(samples)) if samples else 0,
+                               # typed in the constructor, or created untyped and typed afterwards (as a metamodel
+                               # loaded from a file is), before or after the attribute is added to its class
+                               'typed': rng.choice(['ctor', 'ctor', 'late', 'late-after-add'])})
         self.nobj = rng.randrange(2, 4)
         self.ops = []
         for _ in range(rng.randrange(3, 10 if not thorough else 16)):
@@ -85,8 +88,18 @@ def build(E, cj):
             kw['default_value'] = samples[ad['explicit_index']]
         if ad['source'] == 'literal':
             kw['defaultValueLiteral'] = lit[0]
-        f = E.EAttribute(ad['name'], et, **kw)
-        A.eStructuralFeatures.append(f)
+        how = ad.get('typed', 'ctor')
+        if how == 'ctor':
+            f = E.EAttribute(ad['name'], et, **kw)
+            A.eStructuralFeatures.append(f)
+        elif how == 'late':
+            f = E.EAttribute(ad['name'], **kw)
+            f.eType = et
+            A.eStructuralFeatures.append(f)
+        else:
+            f = E.EAttribute(ad['name'], **kw)
+            A.eStructuralFeatures.append(f)
+            f.eType = et
         feats.append(f)
         # the declared default, computed from the description (not from pyecore)
         if ad['source'] == 'literal' and ad['type'] == 'PointList':
